@@ -15,6 +15,7 @@ import (
 	"bytes"
 	"encoding/json"
 	"fmt"
+	"io"
 	"os"
 	"runtime"
 	"strconv"
@@ -88,6 +89,37 @@ func fileHas(path, mk string) bool {
 	return bytes.Contains(b, []byte(mk))
 }
 
+// fileHasSince looks for mk in the part of the file after offset off (the
+// file's size before the segment was sent); when it is not there (or the file
+// has meanwhile been replaced by a smaller one) the whole file is read before
+// the answer is "no". Keeps the cost of a check independent of the log's size.
+func fileHasSince(path string, off int64, mk string) bool {
+	if f, err := os.Open(path); err == nil {
+		if _, err := f.Seek(off, io.SeekStart); err == nil {
+			b, _ := io.ReadAll(f)
+			f.Close()
+			if bytes.Contains(b, []byte(mk)) {
+				return true
+			}
+		} else {
+			f.Close()
+		}
+	}
+	return fileHas(path, mk)
+}
+
+func fileSize(path string) int64 {
+	fi, err := os.Stat(path)
+	if err != nil {
+		return 0
+	}
+	// leave room for a marker straddling the boundary
+	if fi.Size() > 256 {
+		return fi.Size() - 256
+	}
+	return 0
+}
+
 type bbCase struct {
 	Kinds  []int `json:"kinds"`  // write kinds of the pipelined segment (-1: GET of a large value, reply 20-70 KB; 8..15: a write whose log record is 12-40 KB)
 	Shrink bool  `json:"shrink"` // AOFSHRINK is run to completion right before the segment is sent
@@ -97,6 +129,7 @@ type bbCase struct {
 }
 
 var bigOnce sync.Once
+var bbCases int
 
 func runBlackBox(t ev.Failer, c *ev.Collector, srv *t38.Srv, bc bbCase) {
 	conn := srv.MustDial()
@@ -157,13 +190,14 @@ func runBlackBox(t ev.Failer, c *ev.Collector, srv *t38.Srv, bc bbCase) {
 	if bc.Detach >= 0 {
 		seg = append(seg, t38.EncodeCmd(detachCmds[bc.Detach]...)...)
 	}
+	off0 := fileSize(srv.AOFPath())
 	if bc.Split {
 		for i, cmd := range cmds {
 			v, err := conn.Do(cmd...)
 			if err != nil || v.IsErr() {
 				c.Fail(t, "c08-harness", fmt.Sprintf("command %v failed: %v %v", cmd, v, err), bc)
 			}
-			if mks[i] != "" && !fileHas(srv.AOFPath(), mks[i]) {
+			if mks[i] != "" && !fileHasSince(srv.AOFPath(), off0, mks[i]) {
 				c.Fail(t, "ack-before-flush", fmt.Sprintf("acknowledged %s is not in appendonly.aof at the time the reply was read", t38.CmdString(cmd)), bc)
 			}
 		}
@@ -178,7 +212,7 @@ func runBlackBox(t ev.Failer, c *ev.Collector, srv *t38.Srv, bc bbCase) {
 			c.Fail(t, "c08-harness", fmt.Sprintf("command %v failed: %v %v", cmds[i], v, err), bc)
 		}
 		// the acknowledgement of command i has arrived: it must be on disk NOW
-		if mks[i] != "" && !fileHas(srv.AOFPath(), mks[i]) {
+		if mks[i] != "" && !fileHasSince(srv.AOFPath(), off0, mks[i]) {
 			what := "pipelined segment"
 			if bc.Detach >= 0 {
 				what = "segment ending in " + detachCmds[bc.Detach][0] + " (connection detaches)"
@@ -219,6 +253,14 @@ func TestC08_BlackBox(t *testing.T) {
 			bc.Sleep = false
 		}
 		c.Case()
+		if bbCases++; bbCases%300 == 0 {
+			// keep the dataset (and with it the cost of AOFSHRINK) bounded over a long run
+			cl := srv.MustDial()
+			for _, k := range []string{"k", "kbig", "junk"} {
+				cl.MustDo("DROP", k)
+			}
+			cl.Close()
+		}
 		runBlackBox(rt, c, srv, bc)
 		if bc.Detach >= 0 {
 			c.Label("detach:" + detachCmds[bc.Detach][0])
@@ -473,7 +515,7 @@ func runSchedule(t ev.Failer, c *ev.Collector, sc schedCase) (trace []string, fa
 			if e.arr.name == "before-conn-write" {
 				// the replies of this connection's in-flight segment are about to be sent
 				for _, mk := range cs.inflight {
-					if !fileHas(s.srv.AOFPath(), mk) {
+					if !tailHas(s.srv.AOFPath(), mk, 1<<18) && !fileHas(s.srv.AOFPath(), mk) {
 						c.Fail(t, "ack-before-flush", fmt.Sprintf("schedule %v: connection %d is about to send the reply of a write (marker %s) whose bytes are not in appendonly.aof", trace, cs.idx, mk), sc)
 					}
 				}
@@ -654,7 +696,7 @@ func runSchedule(t ev.Failer, c *ev.Collector, sc schedCase) (trace []string, fa
 	for _, cs := range conns {
 		for _, seg := range cs.segs[:cs.next] {
 			for _, cmd := range seg {
-				if mk := cmdMarker(cmd); mk != "" && !cs.closed && !fileHas(s.srv.AOFPath(), mk) {
+				if mk := cmdMarker(cmd); mk != "" && !cs.closed && !tailHas(s.srv.AOFPath(), mk, 1<<18) && !fileHas(s.srv.AOFPath(), mk) {
 					c.Fail(t, "ack-before-flush", fmt.Sprintf("schedule %v: connection %d's acknowledged %s is not in appendonly.aof at the end of the schedule", trace, cs.idx, t38.CmdString(cmd)), sc)
 				}
 			}
